@@ -1,5 +1,5 @@
 """C06 -- stream join/free and ABT_finalize wait for all work, then terminate."""
-from vr import Obl
+from vr import Obl, deepen
 
 META = {
     "explanation": "E2: the scheduler's stop decision (real ABTI_sched_has_to_stop / ABTI_sched_has_unit) against a blocked unit being resumed from another stream "
@@ -33,6 +33,7 @@ def obligations(tier):
     import importlib
     C11 = importlib.import_module("props.C11")
     o += [x for x in C11.obligations(tier) if x.name == "directed_thread_yield_to"]   # error path of ABT_thread_yield_to must undo its num_blocked pre-increment
+    o += deepen([x for x in o if x.hooks], tier)
     return o
 
 MANIFEST_ENTRY = {
